@@ -8,7 +8,8 @@ documented (length, bits, network); renders the texts the harness then feeds to 
 Bind (harness/h_addr.c on the rebuilt code, traces validated by TLC, spec/AddrTrace.tla):
  (i)   irc_check_mask for (group, 16-bit difference) x all lengths 0..128, and random pairs with a
        random common prefix, against PrefixEq;
- (ii)  every MaskForm text through irc_pton: (bits, network) as documented, documented rejections;
+ (ii)  every MaskForm text through irc_pton: (length, bits, network) as documented for the accepted kinds;
+       an accepted text of a documented-reject family is DRIFT only (C13 allows "rejected or parsed");
  (iii) all strings up to a length bound over the address alphabet (and longer ones over reduced
        alphabets), plus mutated form texts, through irc_pton with every combination of
        bits NULL / non-NULL and allow_trailing 0 / 1, under ASan with exact-size heap arguments:
